@@ -42,12 +42,13 @@ LV = "bounded symbolic verification of the real code: every explored path's asse
 add("C01", "round-trip fidelity",
     [H("vfH_rt_e2e", ["rt-e2e-end"], 400), H("vfH_rt_e2e", ["rt-e2e-end"], 400, {"M": 2}), H("vfH_rt_chunk", ["rt-chunk-end"]),
      H("vfH_wire_thresholds", ["thresholds-end"]), H("vfH_mask_kernel", ["mask-kernel-end"], 300, {"N": 40}), H("vfH_trunc_step", ["trunc-step-end"]),
-     H("vfH_compress_toggle", ["toggle-end"]), H("vfH_json_rt", ["json-rt-end"]), TWIN("vfH_rt_e2e"), TWIN("vfH_mask_kernel")],
+     H("vfH_compress_toggle", ["toggle-end"]), H("vfH_json_rt", ["json-rt-end"]), H("vfH_comp_other_conn", ["comp-other-conn-end"], 400), TWIN("vfH_rt_e2e"), TWIN("vfH_mask_kernel")],
     [H("vfH_rt_e2e", ["rt-e2e-end"], 1800, {"tier": 1}), H("vfH_wire_thresholds", ["thresholds-end"], 900, {"tier": 1}),
      H("vfH_mask_kernel", ["mask-kernel-end"], 900, {"N": 96}), H("vfH_trunc_step", ["trunc-step-end"], 300, {"M": 24})],
     ["quick: 1-2 messages, payload lengths {0,1,W-1,W,W+1,2W,2W+1,2(W+14),2(W+14)+1,2(W+14)+2} for W in {1,8}; thresholds 124..127, 65535, 65536 (server paths); 9 write programs; 5 read configurations (ReadMessage / NextReader with read sizes 1,3,8,200 / JoinMessages; transport chunking max, 1 byte, two reads split at every offset for the short streams); both roles; pool on/off; stored-block compression on/off",
      "maskBytes: every length 0..40 (thorough 0..96), every buffer alignment (symbolic address residue), symbolic key, symbolic start position (any int), symbolic content",
      "truncWriter.Write: one step from every state n in 0..4 with 0..10 (thorough 24) input bytes",
+     "two connections sharing the per-level compressor pools (comp_other_conn): a compressed message of 1 or 37 bytes on connection A (3 write programs, compressor output handed over whole or split at 3, 7, 20) hit by a transport fault at write-side operation 0..4 of 3 kinds, then a compressed 5-byte message on a healthy connection B, whose wire must decode to what was sent",
      "thorough: payload lengths up to 300 plus 65534..65537 incl. a client whose write buffer holds the whole frame"],
     ["messages longer than the listed lengths, more than 2 messages per connection, buffer sizes other than those listed",
      "real compress/flate output (any level): only the stored-block model", "WriteJSON/ReadJSON beyond 'an arbitrary io.Writer / io.Reader client' (vfH_json_rt: the encoder writes 1..12 arbitrary bytes in 1-3 Write calls, the decoder reads with sizes 1, 3 or 512 until the message ends)"],
@@ -167,7 +168,7 @@ add("C11", "concurrency contract",
      "schedules: scheduling points at every transport operation (which may block arbitrarily long), goroutine start/end and every blocking lock or channel operation; context bound: quick 1 preemption (conc_frames) / 2 (others), thorough 2-3; timers may fire at any scheduling point after they were armed",
      "transport fault under concurrency (conc_fault): a data writer and a WriteControl caller (zero / far deadline) run concurrently while write-side operation 0..1 (thorough 0..3) fails in one of 3 ways: nothing reaches the transport afterwards on any schedule, one of the calls reports it, later calls fail",
      "data races: vector-clock happens-before detector over every heap cell access of the interpreted code on every explored schedule; a reported race is replayed natively under go test -race"],
-    ["'returns by that deadline' as a real-time bound (time is abstracted: the timeout path is taken whenever the timer wins, writes nothing and does not poison)", "more than 3 library goroutines + main, more preemptions than the bound", "races inside the real compress/flate pools (modelled)"],
+    ["'returns by that deadline' as a real-time bound: time is abstracted (the timeout path is taken whenever the timer wins, writes nothing and does not poison); what is decided is that the wait WriteControl gave up on was armed to end no later than its deadline on the model clock (vfTimerBy), not that a WriteControl which has no timer at all returns in time", "more than 3 library goroutines + main, more preemptions than the bound", "races inside the real compress/flate pools (modelled)"],
     ASSUME_COMMON[:1] + [CLOCK, "preemption only at scheduling points is sound because the explored executions are checked to be data-race-free"], STUB_COMMON + [STUB_FLATE],
     LV + "Interleavings are enumerated by a nondeterministic scheduler inside the symbolic executor (context-bounded); data stay symbolic on every interleaving; schedule counterexamples are replayed natively with a token-passing scheduler.",
     "trusted: engine translation, the scheduler's choice of scheduling points, the happens-before model of channels / sync.Mutex / sync.Once / pools")
